@@ -6,7 +6,7 @@ strings up to a length).  Binding E/T: the real functions are run on every strin
 import json, os, subprocess, sys, shutil
 from concurrent.futures import ThreadPoolExecutor
 import vlib, build
-from vlib import VERIF, Evidence, Reporter, run_tlc, write_cfg, scratch, SEED
+from vlib import VERIF, Evidence, Reporter, run_tlc, write_cfg, scratch, SEED, sh
 
 PID = "C18"
 REPO = build.REPO
@@ -35,6 +35,195 @@ def validate(work, name, path, ev):
               invariants=["AllRecordsAgree", "NonEmpty"], deadlock=False)
     r = run_tlc("TraceCanon", cfg, workers=1, timeout=1500, env={"TRACE": path}, heap="6g")
     return r
+
+
+ENC = {"/": 0, ".": 1, "a": 2}
+
+
+def funnel_stage(work, binp, ev, rep, tier):
+    """the callers: strings over {'/', '.', 'a'} handed to the tools in five input modes; what the tool made of each (the path it used, or a
+    refusal) is written as one record per (mode, string) and validated by TLC against CanonSpec (spec/TraceFunnel.tla)."""
+    import itertools
+    tools = build.build("plain") + "/bin"
+    strs = ["".join(t) for n in (1, 2, 3) for t in itertools.product("/.a", repeat=n)]
+    strs += ["a/../a", "../a", "a/..", "./a/", "//a//a", "a/./a", "a/a/..", "/a/a/", "./.", "a/.", "..a", "a..", ".../a", "a//", "/./a"]
+    if tier != "quick":
+        strs += ["".join(t) for t in itertools.product("/.a", repeat=4)]
+    strs = sorted(set(strs))
+    # the real function tells the driver where to put the file the string is supposed to name (stage 2 has validated it against CanonSpec)
+    pr = subprocess.run([binp, "list"] + strs, capture_output=True, text=True, timeout=60)
+    canon = {}
+    for l in pr.stdout.split("\n"):
+        if l.startswith("{"):
+            r = json.loads(l)
+            canon["".join("/.a\xff"[c] for c in r["s"])] = None if r["rc"] else "".join("/.a\xff"[c] for c in r["o"])
+    if len(canon) != len(strs):
+        raise RuntimeError("canon_table list mode: %d answers for %d strings" % (len(canon), len(strs)))
+    src = work + "/funnel_src.bin"
+    open(src, "wb").write(b"funnel\n")
+    sys.path.insert(0, VERIF + "/tools")
+    import tarfmt, sqfsimg
+    MODES = ("packfile", "sort-plain", "sort-quoted", "tar-name", "cmdline", "xattr-file", "sqfs2tar-d", "sqfs2tar-r", "tar2sqfs-r", "pack-link", "tar-hlink")
+    # modes that name an existing non-root entry make no statement about the strings that canonicalise to the root (the entry cannot be the root,
+    # and -r treats "." / "./" before the funnel and refuses the empty result by design)
+    NEED_ENTRY = ("xattr-file", "sqfs2tar-d", "sqfs2tar-r", "tar2sqfs-r", "pack-link", "tar-hlink")
+    jobs = [(m, s_) for s_ in strs for m in MODES if not (m in NEED_ENTRY and canon[s_] == "")]
+
+    def tar_names(data):
+        out, off = [], 0
+        while off + 512 <= len(data):
+            h = data[off:off + 512]
+            if h == b"\0" * 512:
+                break
+            name = h[0:100].split(b"\0")[0]
+            pre = h[345:500].split(b"\0")[0]
+            size = int(h[124:136].split(b"\0")[0].strip() or b"0", 8)
+            out.append(((pre + b"/" + name) if pre else name).decode("latin1"))
+            off += 512 + (size + 511) // 512 * 512
+        return out
+
+    def observe(j):
+        mode, s_ = jobs[j]
+        p = canon[s_]                                        # None = has a '..' component
+        d = "%s/fn%d" % (work, j)
+        os.makedirs(d, exist_ok=True)
+        img = d + "/o.sqfs"
+        WRONG = [3]
+        try:
+            if mode == "packfile":
+                open(d + "/p.txt", "w").write("dir %s 0755 0 0\n" % s_)
+                rc, o, e = sh([tools + "/gensquashfs", "-q", "-f", "-F", d + "/p.txt", img], timeout=30)
+                if rc:
+                    return mode, s_, 1, []
+                dirs = [x.decode() for x in sqfsimg.load(img).tree(with_content=False) if x]
+                deepest = max(dirs, key=len) if dirs else ""
+                return mode, s_, 0, [ENC[c] for c in deepest]
+            if mode in ("sort-plain", "sort-quoted", "cmdline"):
+                target = p if p else "a"                      # a tree that holds a file exactly where the canonical form points (if there is one)
+                open(d + "/p.txt", "w").write("file /%s 0644 0 0 %s\nfile /zzz 0644 0 0 %s\n" % (target, src, src))
+                if mode == "cmdline":
+                    rc, o, e = sh([tools + "/gensquashfs", "-q", "-f", "-F", d + "/p.txt", img], timeout=30)
+                    if rc:
+                        raise RuntimeError("funnel: cannot pack the lookup tree: %s" % e[-200:])
+                    if p == "":                              # names the root: list it
+                        rc, o, e = sh([tools + "/rdsquashfs", "-l", s_, img], timeout=30)
+                        return mode, s_, 0, ([] if rc == 0 and b"zzz" in o else WRONG)
+                    rc, o, e = sh([tools + "/rdsquashfs", "-c", s_, img], timeout=30)
+                    if rc == 0 and o == b"funnel\n":
+                        return mode, s_, 0, ([ENC[c] for c in p] if p else WRONG)          # found: the tool used the path the file sits at
+                    return (mode, s_, 1, []) if p is None else (mode, s_, 0, WRONG)   # refused / not found although the canonical path exists
+                sf = d + "/s.txt"
+                open(sf, "w").write("-5 %s\n" % (('"%s"' % s_) if mode == "sort-quoted" else s_))
+                rc, o, e = sh([tools + "/gensquashfs", "-q", "-f", "-b", "4096", "-F", d + "/p.txt", "-S", sf, img], timeout=30)
+                if rc:
+                    return mode, s_, 1, []
+                matched = b"no match" not in e.lower() and b"not match" not in e.lower() and not e.strip()
+                if p:
+                    return mode, s_, 0, ([ENC[c] for c in p] if matched else WRONG)
+                # a string whose canonical form is empty (names the root) or that must be refused: accepted without effect = empty path
+                return mode, s_, 0, ([] if not matched else WRONG)
+            if mode == "xattr-file":
+                target = p if p else "a"
+                open(d + "/p.txt", "w").write("file /%s 0644 0 0 %s\nfile /zzz 0644 0 0 %s\n" % (target, src, src))
+                open(d + "/x.txt", "w").write("# file: %s\nuser.k=\"v\"\n" % s_)
+                rc, o, e = sh([tools + "/gensquashfs", "-q", "-f", "-F", d + "/p.txt", "-A", d + "/x.txt", img], timeout=30)
+                if rc:
+                    return mode, s_, 1, []
+                t = sqfsimg.load(img).tree(with_content=False)
+                has = [k.decode() for k, n in t.items() if n["xattrs"]]
+                return mode, s_, 0, ([ENC[c] for c in has[0]] if len(has) == 1 else WRONG if has else [])
+            if mode == "sqfs2tar-d":
+                target = p if p else "a"
+                open(d + "/p.txt", "w").write("dir /%s 0755 0 0\nfile /%s/zzz 0644 0 0 %s\nfile /other 0644 0 0 %s\n" % (target, target, src, src))
+                rc, o, e = sh([tools + "/gensquashfs", "-q", "-f", "-F", d + "/p.txt", img], timeout=30)
+                if rc:
+                    raise RuntimeError("funnel: cannot pack the lookup tree: %s" % e[-200:])
+                rc, o, e = sh([tools + "/sqfs2tar", "-k", "-d", s_, img], timeout=30)
+                if rc:
+                    return (mode, s_, 1, []) if p is None else (mode, s_, 0, WRONG)
+                names = [x.rstrip("/") for x in tar_names(o)]
+                return mode, s_, 0, ([ENC[c] for c in p] if p and (p + "/zzz") in names and "other" not in names else WRONG)
+            if mode == "sqfs2tar-r":
+                open(d + "/p.txt", "w").write("file /zzz 0644 0 0 %s\n" % src)
+                rc, o, e = sh([tools + "/gensquashfs", "-q", "-f", "-F", d + "/p.txt", img], timeout=30)
+                if rc:
+                    raise RuntimeError("funnel: cannot pack the lookup tree: %s" % e[-200:])
+                rc, o, e = sh([tools + "/sqfs2tar", "-r", s_, img], timeout=30)
+                if rc:
+                    return mode, s_, 1, []
+                names = [x for x in tar_names(o) if x.endswith("/zzz")]
+                return mode, s_, 0, ([ENC[c] for c in names[0][:-4]] if len(names) == 1 and set(names[0][:-4]) <= set(ENC) else WRONG)
+            if mode == "tar2sqfs-r":
+                # the member below the named root is kept with the root stripped, everything else is dropped
+                arch = b""
+                if p:
+                    parts = p.split("/")
+                    for i in range(1, len(parts) + 1):
+                        arch += tarfmt.header(("/".join(parts[:i]) + "/").encode(), b"5", mode=0o755)
+                    arch += tarfmt.header((p + "/zzz").encode(), b"0", size=7) + tarfmt.pad(b"funnel\n")
+                arch += tarfmt.header(b"outside", b"0", size=7) + tarfmt.pad(b"funnel\n") + tarfmt.terminator()
+                rc, o, e = sh([tools + "/tar2sqfs", "-q", "-f", "-r", s_, img], stdin=arch, timeout=30)
+                if rc:
+                    return mode, s_, 1, []
+                t = [x.decode() for x in sqfsimg.load(img).tree(with_content=False) if x]
+                return mode, s_, 0, ([ENC[c] for c in p] if p and t == ["zzz"] else WRONG)
+            if mode == "pack-link":
+                target = p if p else "a"
+                open(d + "/p.txt", "w").write("file /%s 0644 0 0 %s\nlink /zzlink 0644 0 0 %s\n" % (target, src, s_))
+                rc, o, e = sh([tools + "/gensquashfs", "-q", "-f", "-F", d + "/p.txt", img], timeout=30)
+                if rc:
+                    return (mode, s_, 1, []) if p is None else (mode, s_, 0, WRONG)
+                t = sqfsimg.load(img).tree(with_content=False)
+                ok = p and b"zzlink" in t and t[b"zzlink"]["kind"] == "file" and t[b"zzlink"]["inum"] == t[p.encode()]["inum"]
+                return mode, s_, 0, ([ENC[c] for c in p] if ok else WRONG)
+            if mode == "tar-hlink":
+                target = p if p else "a"
+                arch = tarfmt.header(target.encode(), b"0", size=7) + tarfmt.pad(b"funnel\n") + tarfmt.header(b"zzlink", b"1", linkname=s_.encode()) + tarfmt.terminator()
+                rc, o, e = sh([tools + "/tar2sqfs", "-q", "-f", img], stdin=arch, timeout=30)
+                if rc:
+                    return (mode, s_, 1, []) if p is None else (mode, s_, 0, WRONG)
+                t = sqfsimg.load(img).tree(with_content=False)
+                ok = p and b"zzlink" in t and t[b"zzlink"]["kind"] == "file" and t[b"zzlink"]["inum"] == t[p.encode()]["inum"]
+                return mode, s_, 0, ([ENC[c] for c in p] if ok else WRONG)
+            if mode == "tar-name":
+                arch = tarfmt.header(s_.encode(), b"5", mode=0o755) + tarfmt.terminator()
+                rc, o, e = sh([tools + "/tar2sqfs", "-q", "-f", "-s", img], stdin=arch, timeout=30)
+                if rc:
+                    return mode, s_, 1, []
+                dirs = [x.decode() for x in sqfsimg.load(img).tree(with_content=False) if x]
+                deepest = max(dirs, key=len) if dirs else ""
+                return mode, s_, 0, [ENC[c] for c in deepest]
+        finally:
+            shutil.rmtree(d, ignore_errors=True)
+    recs = []
+    with ThreadPoolExecutor(16) as ex:
+        for mode, s_, rc, o in ex.map(observe, range(len(jobs))):
+            recs.append({"mode": mode, "s": [ENC[c] for c in s_], "rc": rc, "o": o})
+    tp = work + "/funnel.ndjson"
+    with open(tp, "w") as f:
+        for r in recs:
+            f.write(json.dumps(r) + "\n")
+    cfg = work + "/funnel.cfg"
+    write_cfg(cfg, init="TInit", nxt="TNext", constants={"MaxLen": 0, "Alphabet": {0, 1, 2, 3}}, invariants=["AllRecordsAgree", "NonEmpty"], deadlock=False)
+    r = run_tlc("TraceFunnel", cfg, workers=1, timeout=1500, env={"TRACE": tp}, heap="6g")
+    ev.tlc(r, "TraceFunnel (%d records)" % len(recs))
+    ev.set("funnel_records", len(recs))
+    ev.set("funnel_by_mode", {m: {"used_canonical": sum(1 for r_ in recs if r_["mode"] == m and r_["rc"] == 0), "refused": sum(1 for r_ in recs if r_["mode"] == m and r_["rc"])} for m in MODES})
+    if r["violated"] == "AllRecordsAgree":
+        bad = sorted(r["trace"][0].get("bad")) if r["trace"] else []
+        first = recs[bad[0] - 1] if bad else None
+        dec = lambda q: "".join("/.a\xff"[c] for c in q)
+        byMode = {}
+        ev.set("funnel_modes", list(MODES))
+        for b in bad:
+            byMode.setdefault(recs[b - 1]["mode"], []).append(dec(recs[b - 1]["s"]))
+        rep.violation("funnel-" + (first["mode"] if first else "?"), "a tool input mode does not funnel its string through canonicalize_name: mode %s, string %r -> %s; %s"
+                      % (first and first["mode"], first and dec(first["s"]), ("refused" if first and first["rc"] else "used as %r" % (first and (dec(first["o"]) if first["o"] != [3] else "<another path / no effect>"))),
+                         {m: v[:5] for m, v in byMode.items()}), artefact=tp, data={"first": first})
+    elif not r["ok"]:
+        print("CHECK-BROKEN: funnel validation failed to run: %s" % r["out"][-800:])
+        return None
+    return len(recs)
 
 
 def run(tier):
@@ -101,6 +290,11 @@ def run(tier):
             print("CHECK-BROKEN: trace validation failed to run on %s: %s" % (p, r["out"][-800:]))
             ev.write()
             return 2
+    fn = funnel_stage(work, binp, ev, rep, tier)
+    if fn is None:
+        ev.write()
+        return 2
+    nrec += fn
     recs = [json.loads(l) for l in open(files[0])][:3] + [json.loads(l) for l in open(files[-1])][:2]
     for x in recs:
         ev.sample({"string": decode(x["s"]), "rc": x["rc"], "result": decode(x["o"]), "sane": x["sane"]}, limit=5)
